@@ -146,7 +146,11 @@ func (w *When) In(specArgsOrExprs ...interface{}) *When {
 func (w *When) Return(value ...interface{}) *When {
 	if w.curMatch != nil {
 		w.curMatch.AddResult(value)
-		w.matches = append(w.matches, w.curMatch)
+		// the default matcher matches everything: it must stay the fallback and never enter the
+		// condition list, or conditions registered afterwards could not be reached any more
+		if w.curMatch != w.defaultReturns {
+			w.matches = append(w.matches, w.curMatch)
+		}
 		return w
 	}
 
